@@ -84,9 +84,9 @@ theorem prefix_budget {σ ι ο : Type} (step : σ → ι → σ × ο)
   linarith [h.2.1]
 
 theorem zip_mem_left {α β : Type} {P : α → Prop} {as : List α} {bs : List β} (h : ∀ a ∈ as, P a) :
-    ∀ x ∈ as.zip bs, P x.1 := fun x hx => h _ (List.of_mem_zip hx).1
+    ∀ x ∈ as.zip bs, P x.1 := fun _ hx => h _ (List.of_mem_zip hx).1
 
 theorem zip_mem_right {α β : Type} {P : β → Prop} {as : List α} {bs : List β} (h : ∀ b ∈ bs, P b) :
-    ∀ x ∈ as.zip bs, P x.2 := fun x hx => h _ (List.of_mem_zip hx).2
+    ∀ x ∈ as.zip bs, P x.2 := fun _ hx => h _ (List.of_mem_zip hx).2
 
 end OW.RR
